@@ -15,6 +15,15 @@ CLAIMED['C07'] = dict(
     note='Trusted: Coq kernel; hand-written Exec model tied to the real allocator by lock-step replay (every address, outcome, iteration index and capacity_left(i)) for N=1..5 in configurations base/rel/dbg8(/dbg16), block sizes covering every residue mod N; sizes are unbounded Z in the model (requests below 2^63; wrap-around of size_t in the bounds check is not modelled).',
     technique='Coq invariant proof over an executable state machine + lock-step correspondence via extracted OCaml', ref='5 C07')
 
+CLAIMED['C06'] = dict(
+    text='Exec model of memory_stack over a cached arena (Stack.v). Theorems for every history of allocations (any size/alignment/fence), block growth, nested markers and unwinds and shrink_to_fit: unwinding to a marker restores the block stack, the top and hence capacity_left of the moment it was taken, is never reported and issues no upstream call; dropped blocks go to the cache in the order that brings them back first; replay equality (the same requests after the unwind give the same outcomes and addresses, served from the cache alone); valid markers are totally ordered consistently with the order they were taken; only shrink_to_fit releases blocks.',
+    note='Trusted: Coq kernel; hand-written Exec model tied to memory_stack<growing|fixed> by lock-step replay of every address, marker field, capacity_left/next_capacity and upstream call in 3-4 debug configurations; the log-level oracle re-checks capacity restoration, replay blocks and content of older allocations on the real code. Not proved in Coq yet: that the write events of an unwind avoid older allocations (checked on the implementation by content patterns).',
+    technique='Coq invariant proofs over an executable state machine + lock-step correspondence via extracted OCaml', ref='5 C06')
+CLAIMED['C05'] = dict(
+    text='Exec models of memory_arena (cached/uncached, any block source) and memory_stack. Theorems for every operation history, including a failing block source at any call: the upstream calls of every operation are a LIFO step on the blocks held (acquire appends, release returns the newest block with the same address and size); any history followed by destruction returns every block exactly once in reverse order of acquisition; cached blocks are reused before the source is asked; a source failure leaves the arena unchanged.',
+    note='Trusted: Coq kernel; Exec models tied by lock-step replay to memory_arena over growing, fixed, static and virtual block sources and to memory_stack; pools, collections and iteration allocators are covered by the bracket oracle on their upstream logs (with the k-th upstream call failing, moves and move assignments) and by the stale-write detector of the instrumented upstream, not by a theorem about their own code paths.',
+    technique='Coq proofs over executable arena/stack models + lock-step correspondence + upstream-log bracket oracle', ref='5 C05')
+
 NOT_YET = {}
 
 checks = []
